@@ -9,8 +9,7 @@
               chunked, Content-Length, or until close) returning the response and the unread rest;
    [wf]       header names/values, cookies and reason are free of CR (names of colon), the application sets
               neither Transfer-Encoding nor Connection itself, a Content-Length it sets on an iterator body
-              is the true length, 100 <= status <= 999, and the stream flag is only used with iterator
-              bodies (or no body at all). *)
+              is the true length, and 100 <= status <= 999.  (Nothing is assumed about the stream flag.) *)
 From Coq Require Import String List NArith Bool.
 From Circ Require Import Model.HttpResponse Proofs.HttpResponseP.
 Import ListNotations.
@@ -35,10 +34,12 @@ Theorem C15_expected_is_app_data : forall c,
 Proof. exact expected_app_data. Qed.
 Print Assumptions C15_expected_is_app_data.
 
-(* the server never answers a configuration in the domain with an exception *)
-Theorem C15_no_crash : forall c, wf c = true -> respond c <> Crash.
-Proof. exact no_crash. Qed.
-Print Assumptions C15_no_crash.
+(* Response.stream only matters for iterator bodies: a complete body (str, bytes, list, or the values of a
+   generator handler that the core ran as a coroutine) goes out at once after the header block, flag or not *)
+Theorem C15_sized_written_at_once : forall c, eff_sized c = true -> head c = false ->
+  streamed c = false /\ wire c = head_bytes c ++ concat (eff_chunks c).
+Proof. exact sized_written_at_once. Qed.
+Print Assumptions C15_sized_written_at_once.
 
 (* the connection is closed iff the response, as the client reads it, says so *)
 Theorem C15_closed_iff_announced : forall c rest r rest', wf c = true -> (until_close c = true -> rest = []) ->
@@ -149,6 +150,16 @@ Definition ex_file_cl : cfg :=
 Definition ex_sized_cl : cfg :=
   {| v11 := true; head := false; status := 200; reason := str "OK"; close0 := false;
      pre := [(str "Content-Length", str "999")]; cookies := []; sized := true; stream := false; chunks := [str "hello"] |}.
+
+(* a handler that sets Response.stream and returns a list (or a generator run as a coroutine) *)
+Definition ex_stream_list : cfg :=
+  {| v11 := true; head := false; status := 200; reason := str "OK"; close0 := false;
+     pre := []; cookies := []; sized := true; stream := true; chunks := [str "ab"; str "cd"] |}.
+Example C15_ex_stream_list :
+  wf ex_stream_list = true /\
+  match respond ex_stream_list with Out (_ :: body) cl => body = [str "abcd"] /\ cl = false | _ => False end /\
+  option_map (fun p => p_body (fst p)) (parse false (wire ex_stream_list)) = Some (str "abcd").
+Proof. vm_compute. repeat split. Qed.
 
 Example C15_ex_wf : forallb wf [ex_stream; ex_head; ex_204; ex_10_iter; ex_file_cl; ex_sized_cl] = true.
 Proof. vm_compute. reflexivity. Qed.
